@@ -38,13 +38,16 @@ def _alarm(signum, frame):
     raise Timeout()
 
 
+FLAGS = [dict()]       # the option set classify() runs under (default options, or bookkeeping on)
+
+
 def classify(text, include_ok=False):
     """(category, message).  category None = conforming outcome"""
     signal.signal(signal.SIGALRM, _alarm)
     signal.setitimer(signal.ITIMER_REAL, HORIZON_S)
     try:
         try:
-            d = impl.loads(text, expand_includes=True)
+            d = impl.loads(text, expand_includes=True, **FLAGS[0])
         finally:
             signal.setitimer(signal.ITIMER_REAL, 0)
     except Timeout:
@@ -86,8 +89,8 @@ def run_text(res, text, sub, sigtext=None, replay_extra=None):
         return True
     R.add_outcome(res, cat)
     small = shrink(text, cat)
-    R.add_violation(res, "%s|%s" % (cat, small if len(small) < 200 else small[:200]), "loads neither parses nor raises a parse error: " + (classify(small, inc)[1] or msg),
-                    {"text": small}, {"sub_space": sub, "original": text[:500]})
+    R.add_violation(res, "%s%s|%s" % (cat, "|flags" if FLAGS[0] else "", small if len(small) < 200 else small[:200]), "loads neither parses nor raises a parse error: " + (classify(small, inc)[1] or msg),
+                    {"text": small, "flags": dict(FLAGS[0])}, {"sub_space": sub, "original": text[:500]})
     return False
 
 
@@ -140,17 +143,23 @@ def seeds(tier):
     out.append(("listexpr", "CLASS EXPRESSION {a,b c} END"))
     out.append(("regex", "CLASS EXPRESSION /^ab+$/i END"))
     out.append(("include", 'MAP\nINCLUDE "no_such_file.map"\nEND'))
+    for label, text in O.documents("quick"):
+        if label.startswith("RICHC"):
+            out.append((label, text))
     n = 40 if tier == "thorough" else 10
-    for f in O.corpus_subset(n):
+    for f in O.corpus_subset(n * 3):
         t = corpus.read(f)
-        if t is not None and len(t) < 6000:
+        if t is not None and len(tokenize(t)) <= MAX_SEED_TOKENS and sum(1 for x in out if "/" in x[0]) < n:
             out.append((f.replace(R.REPO + "/", ""), t))
-    return out
+    return [x for x in out if len(tokenize(x[1])) <= MAX_SEED_TOKENS]
+
+
+MAX_SEED_TOKENS = 220      # bound: seeds are documents of at most this many tokens; every position of every seed is mutated
 
 
 REPLACEMENTS = ["END", "MAP", "LAYER", "CLASS", "STYLE", "SYMBOL", "GRID", "NAME", "name", "TYPE", "COLOR", "POINTS", "PATTERN", "PROJECTION",
                 "METADATA", "CONFIG", "VALUES", "INCLUDE", "AUTO", "TRUE", "NOT", "AND", "OR", "IN", "abc", "7", "-2.5", '"s"', "'s'", '"#ff00aa"',
-                "[attr]", "(", ")", "{", "}", "[", "]", "/re/", ",", "=", "%", "`d`", "%v%", "./a/b", "@"]
+                "[attr]", "(", ")", "{", "}", "[", "]", "/re/", ",", "=", "%", "`d`", "%v%", "./a/b", "@", "/* x */", "/* y */ /* z */", "# h\n"]
 
 SOUP = ["MAP", "LAYER", "STYLE", "SYMBOL", "GRID", "END", "NAME", "TYPE", "POINTS", "PROJECTION", "METADATA", "CONFIG", "AUTO", "abc", "7", "2.5",
         '"s"', "[a]", "(", ")", "{", "}", "/r/", "=", "NOT"]
@@ -159,7 +168,7 @@ OPENERS = ['"', "'", "/", "/*", "(", "[", "{", "`", "%", "\\\\"]
 
 
 def units(tier):
-    us = [("TIMING", i) for i in range(len(pump_families()))]
+    us = [("TIMING", i) for i in range(len(pump_families()))] + [("STORM", i, 16) for i in range(16)]
     k = 2 if tier == "quick" else 3
     us += [("LALR", k, i, 32) for i in range(32)]
     ns = len(seeds(tier))
@@ -231,10 +240,7 @@ def run_mut(res, tier, idx):
     n0 = res["evals"]
     nt = len(toks)
     # bound the per-seed work for long corpus files: positions are strided, but every kind is applied at every chosen position
-    stride = 1 if nt <= 150 else (nt // 150 + 1)
-    if stride > 1:
-        res["caps"].append("seed %s has %d tokens: mutation positions strided by %d" % (label, nt, stride))
-    positions = list(range(0, nt, stride))
+    positions = list(range(0, nt))
     for i in positions:
         run_text(res, join(toks[:i] + toks[i + 1:], seps[:i] + seps[i + 1:] if i < len(seps) else seps[:-1]), "delete")
         run_text(res, join(toks[: i + 1] + toks[i:], seps[:i] + [" "] + seps[i:]), "duplicate")
@@ -247,6 +253,18 @@ def run_mut(res, tier, idx):
         for o in OPENERS:
             run_text(res, join(toks[:i] + [o] + toks[i:], seps[:i] + [" "] + seps[i:]), "unterminated")
             run_text(res, join(toks[:i] + [o + toks[i]] + toks[i + 1:], seps), "unterminated_glued")
+    # the same inputs with bookkeeping on (include_comments + include_position): structural mutations and comment insertions
+    FLAGS[0] = dict(include_comments=True, include_position=True)
+    try:
+        for i in positions:
+            run_text(res, join(toks[:i] + toks[i + 1:], seps[:i] + seps[i + 1:] if i < len(seps) else seps[:-1]), "delete+flags")
+            run_text(res, join(toks[: i + 1] + toks[i:], seps[:i] + [" "] + seps[i:]), "duplicate+flags")
+            if i + 1 < nt:
+                run_text(res, join(toks[:i] + [toks[i + 1], toks[i]] + toks[i + 2:], seps), "swap+flags")
+            for r_ in ("/* x */", "/* y */ /* z */", "# h\n", "END", '"s"'):
+                run_text(res, join(toks[:i] + [r_] + toks[i:], seps[:i] + [" "] + seps[i:]), "insert+flags")
+    finally:
+        FLAGS[0] = dict()
     # exact error position for a character no terminal can start with
     for i in positions:
         prev = toks[i - 1] if i else ""
@@ -323,6 +341,84 @@ def run_roots(res):
         else:
             R.add_violation(res, "root|%s" % text, msg, {"text": text}, None)
     R.add_sub(res, "block types as roots", n)
+
+
+# ------------------------------------------------------------------ (f') storms after an unterminated opener, in a killable child process
+STORM_OPENERS = ['"', "'", "/", "/*", "(", "[", "{", "`", "%", "\\\\", "#", ""]
+STORM_UNITS = ["\\\\", '\\"', "\\'", '"', "'", "/", "*/", "*", "(", ")", "]", "}", "%", "#", "\\", "i", "`", "a\\\\b"]
+STORM_SIZES = [12, 24, 36]
+STORM_TIMEOUT_S = 15
+
+CHILD = r"""
+import sys, json, logging
+logging.disable(logging.CRITICAL)
+import lark
+from mappyfile.parser import Parser
+from mappyfile.transformer import MapfileToDict
+p = Parser(expand_includes=False); m = MapfileToDict()
+for line in sys.stdin:
+    text = json.loads(line)
+    try:
+        m.transform(p.parse(text)); out = "accepted"
+    except Exception as e:
+        out = "rejected" if isinstance(e, lark.exceptions.LarkError) else "exc:" + type(e).__name__
+    sys.stdout.write(out + "\n"); sys.stdout.flush()
+"""
+
+
+def storm_cases():
+    out = []
+    for o in STORM_OPENERS:
+        for u in STORM_UNITS:
+            for n in STORM_SIZES:
+                for glue in (" ", ""):
+                    out.append("MAP\n  NAME %sabc %s\n  LAYER\n    DATA 'c:%sdata'\n  END\nEND" % (o, (u + glue) * n, (u + glue) * n))
+    return out
+
+
+def run_storm(res, shard, nshards):
+    """regex / lexer blow-ups cannot be interrupted inside the interpreter: each case runs in a child process that is killed at the horizon"""
+    import os
+    import select
+    import subprocess
+    import sys as _sys
+
+    cases = storm_cases()[shard::nshards]
+
+    def spawn():
+        env = dict(os.environ)
+        return subprocess.Popen([_sys.executable, "-c", CHILD], stdin=subprocess.PIPE, stdout=subprocess.PIPE, text=True, env=env, bufsize=1)
+
+    child = spawn()
+    import json as _json
+
+    for text in cases:
+        child.stdin.write(_json.dumps(text) + "\n")
+        child.stdin.flush()
+        r, _, _ = select.select([child.stdout], [], [], STORM_TIMEOUT_S + (20 if res["evals"] == 0 else 0))
+        res["evals"] += 1
+        if not r:
+            child.kill()
+            child.wait()
+            R.add_outcome(res, "timeout")
+            R.add_violation(res, "timeout|%s" % text[:60].replace("\n", " "), "loads does not return within %d s on a %d-character input" % (STORM_TIMEOUT_S, len(text)),
+                            {"text": text, "storm": True}, None)
+            child = spawn()
+            continue
+        out = child.stdout.readline().strip()
+        if out in ("accepted", "rejected"):
+            R.add_outcome(res, out)
+            res["states"].add(R.h64((out, text)))
+        else:
+            R.add_outcome(res, out or "child_died")
+            R.add_violation(res, "%s|%s" % (out or "child_died", text[:60].replace("\n", " ")), "loads neither parses nor raises a parse error (%s)" % out,
+                            {"text": text, "storm": True}, None)
+            if child.poll() is not None:
+                child = spawn()
+    child.kill()
+    child.wait()
+    R.add_sub(res, "storms after an unterminated opener (%d openers x %d units x %s repetitions x glued/spaced), each in a killable child" % (
+        len(STORM_OPENERS), len(STORM_UNITS), STORM_SIZES), res["evals"])
 
 
 # ------------------------------------------------------------------ (f) pumped families
@@ -425,6 +521,8 @@ def run_unit(unit):
         run_roots(res)
     elif k == "TIMING":
         run_timing(res, unit[1])
+    elif k == "STORM":
+        run_storm(res, unit[1], unit[2])
     return res
 
 
@@ -439,9 +537,15 @@ def units(tier):  # noqa: F811
 
 def describe(tier):
     return {"rule": "case = one input text executed through the real loads; state = distinct (outcome class, text)",
-            "bounds": {"lalr_context_depth": 2 if tier == "quick" else 3, "seeds": len(seeds(tier)), "replacement_lexemes": len(REPLACEMENTS),
+            "bounds": {"lalr_context_depth": 2 if tier == "quick" else 3, "seeds": len(seeds(tier)), "max_seed_tokens": MAX_SEED_TOKENS, "replacement_lexemes": len(REPLACEMENTS),
                        "soup_alphabet": len(SOUP), "soup_length": 3 if tier == "quick" else 4, "openers": OPENERS, "pump_families": len(pump_families()),
                        "pump_sizes": [BASE_N, BASE_N * 2, BASE_N * 4, BASE_N * 8], "per_execution_horizon_s": HORIZON_S}}
+
+
+def json_dumps(x):
+    import json as _json
+
+    return _json.dumps(x)
 
 
 def replay(case):
@@ -450,6 +554,15 @@ def replay(case):
         a, b = measure(f(case["n"])), measure(f(case["n"] * 8))
         return {"t_N": a, "t_8N": b, "ratio": b / a} if b >= 0.2 and b / a > 24 else None
     text = case["text"]
+    if case.get("storm"):
+        import subprocess
+        import sys as _sys
+
+        try:
+            p = subprocess.run([_sys.executable, "-c", CHILD], input=json_dumps(text) + "\n", capture_output=True, text=True, timeout=STORM_TIMEOUT_S + 30)
+        except subprocess.TimeoutExpired:
+            return {"timeout": True}
+        return None if p.stdout.strip() in ("accepted", "rejected") else {"outcome": p.stdout.strip()}
     if "want" in case:
         import mappyfile
 
@@ -458,7 +571,9 @@ def replay(case):
         except Exception as e:
             return None if [getattr(e, "line", None), getattr(e, "column", None)] == case["want"] else {"got": [getattr(e, "line", None), getattr(e, "column", None)]}
         return {"accepted": True}
+    FLAGS[0] = dict(case.get("flags") or {})
     cat, msg = classify(text, bool(INCLUDE_RE.search(text)))
+    FLAGS[0] = dict()
     if case.get("must_accept"):
         return None if msg == "accepted" else {"message": msg}
     return {"category": cat, "message": msg} if cat else None
